@@ -335,6 +335,33 @@ func zooGo(e *E, variant int) interface{} {
 				out[k] = zooGo(e.A[i], variant)
 			}
 			return out
+		case "map[widths]":
+			// interface-keyed map whose keys are equal as numbers (or as text) and differ in Go type
+			// only: int(1), int64(1), int8(1), int32(1), uint8(1), uint(1), "a", zNamedStr("a")
+			out := map[interface{}]interface{}{}
+			for _, i := range idx {
+				var k interface{}
+				switch i % 8 {
+				case 0:
+					k = int(1)
+				case 1:
+					k = int64(1)
+				case 2:
+					k = int8(1)
+				case 3:
+					k = int32(1)
+				case 4:
+					k = uint8(1)
+				case 5:
+					k = uint(1)
+				case 6:
+					k = "a"
+				default:
+					k = zNamedStr("a")
+				}
+				out[k] = zooGo(e.A[i], variant)
+			}
+			return out
 		case "map[iface]":
 			out := map[interface{}]interface{}{}
 			for _, i := range idx {
